@@ -116,7 +116,7 @@ type c19DelayCfg struct {
 	mult         float64
 }
 
-func c19Ref(kind int, h message.HandlerFunc, dcfg c19DelayCfg, maxRetries int, refDelay *int) message.HandlerFunc {
+func c19Ref(kind int, h message.HandlerFunc, dcfg c19DelayCfg, maxRetries int, refDelay *int, retryExhausted *bool) message.HandlerFunc {
 	switch kind {
 	case mwCorrelation:
 		return func(m *message.Message) ([]*message.Message, error) {
@@ -169,6 +169,7 @@ func c19Ref(kind int, h message.HandlerFunc, dcfg c19DelayCfg, maxRetries int, r
 				outs, err = h(m)
 			}
 			if err != nil {
+				*retryExhausted = true
 				return nil, err
 			}
 			return outs, nil
@@ -188,11 +189,34 @@ func c19Classify(err error) string {
 	if c, ok := errors.Cause(err).(middleware.RecoveredPanicError); ok {
 		return "recovered-panic:" + fmt.Sprint(c.V)
 	}
+	var rpp *middleware.RecoveredPanicError
+	if stderrors.As(err, &rpp) && rpp != nil {
+		return "recovered-panic:" + fmt.Sprint(rpp.V)
+	}
 	var p refPanic
 	if stderrors.As(err, &p) {
 		return "recovered-panic:" + fmt.Sprint(p.v)
 	}
 	return "error:" + err.Error()
+}
+
+// c19SameErr: the same outcome up to wrapping — equal classes, or the reference error is carried (errors.Is / its text
+// is contained), or for a recovered panic the panic value is carried in the error's text.
+func c19SameErr(real, ref error) bool {
+	a, b := c19Classify(real), c19Classify(ref)
+	if a == b {
+		return true
+	}
+	if real == nil || ref == nil {
+		return false
+	}
+	if strings.HasPrefix(b, "recovered-panic:") {
+		return strings.Contains(real.Error(), strings.TrimPrefix(b, "recovered-panic:"))
+	}
+	if strings.HasPrefix(a, "recovered-panic:") {
+		return false
+	}
+	return stderrors.Is(real, ref) || strings.Contains(real.Error(), ref.Error())
 }
 
 func c19Outs(outs []*message.Message) string {
@@ -241,6 +265,7 @@ func c19StackBody(r *Run) {
 	realH := message.HandlerFunc(realBare.handle)
 	refH := message.HandlerFunc(refBare.handle)
 	refDelayCount := 0
+	retryExhausted := false // a reference Retry ran out of attempts during the current presentation
 	hasTimeout, hasInstantAck, hasDelay := false, false, false
 	for i := len(kinds) - 1; i >= 0; i-- {
 		k := kinds[i]
@@ -269,7 +294,7 @@ func c19StackBody(r *Run) {
 		case mwRetry:
 			realH = middleware.Retry{MaxRetries: maxRetries, InitialInterval: time.Millisecond, MaxInterval: 2 * time.Millisecond, Multiplier: 1.5}.Middleware(realH)
 		}
-		refH = c19Ref(k, refH, dcfg, maxRetries, &refDelayCount)
+		refH = c19Ref(k, refH, dcfg, maxRetries, &refDelayCount, &retryExhausted)
 	}
 	// DelayOnError may appear several times in one stack; the reference then counts one bump per layer, like the real one multiplies once per layer.
 	realMsg := message.NewMessage("consumed", []byte("p"))
@@ -287,6 +312,7 @@ func c19StackBody(r *Run) {
 		obsFrom := len(realBare.obs)
 		var rOuts, fOuts []*message.Message
 		var rErr, fErr error
+		retryExhausted = false
 		rpv, rpan := Call(func() { rOuts, rErr = realH(realMsg) })
 		fpv, fpan := Call(func() { fOuts, fErr = refH(refMsg) })
 		what := fmt.Sprintf("presentation %d of stack %s", p+1, strings.Join(names, " > "))
@@ -304,14 +330,17 @@ func c19StackBody(r *Run) {
 			}
 			r.Probe("panic-escapes-in-both")
 		} else {
-			if c19Classify(rErr) != c19Classify(fErr) {
+			if !c19SameErr(rErr, fErr) {
 				sig := "the stack's error differs from the bare handler's plus the documented effects"
 				if strings.HasPrefix(c19Classify(fErr), "recovered-panic") || strings.HasPrefix(c19Classify(rErr), "recovered-panic") {
 					sig = "a recovered panic does not carry the panic value"
 				}
 				r.Fail("C19.R2", sig, "%s: got %q, reference %q", what, c19Classify(rErr), c19Classify(fErr))
 			}
-			if c19Outs(rOuts) != c19Outs(fOuts) {
+			// (what Retry hands back together with its final error is not specified: such outputs are never published)
+			if retryExhausted {
+				r.Probe("retry-exhausted-in-stack")
+			} else if c19Outs(rOuts) != c19Outs(fOuts) {
 				sig := "the stack's outputs differ from the bare handler's plus the documented effects"
 				r.Fail("C19.R2", sig, "%s: got [%s], reference [%s]", what, c19Outs(rOuts), c19Outs(fOuts))
 			}
@@ -400,8 +429,11 @@ func c19DelayBody(r *Run) {
 				r.Fail("C19.R6", "DelayOnError: delay after the k-th consecutive failure is not min(Initial x Multiplier^(k-1), Max)", "k=%d got %q, expected %v (Initial %v, Multiplier %.2f, Max %v)", k, msg.Metadata.Get(delay.DelayedForKey), time.Duration(want), initial, mult, max)
 				return
 			}
+			// (C19 speaks about the delay only; a delayed-until stamp, when there is one, must agree with it)
 			until, uerr := time.Parse(time.RFC3339, msg.Metadata.Get(delay.DelayedUntilKey))
-			if uerr != nil || until.Sub(now.Add(got)) >= time.Second || now.Add(got).Sub(until) >= time.Second {
+			if msg.Metadata.Get(delay.DelayedUntilKey) == "" {
+				r.Probe("delay-on-error-without-delayed-until")
+			} else if uerr != nil || until.Sub(now.Add(got)) >= time.Second || now.Add(got).Sub(until) >= time.Second {
 				r.Fail("C19.R6", "DelayOnError: delayed-until and delayed-for disagree", "k=%d until=%v for=%v now=%v", k, msg.Metadata.Get(delay.DelayedUntilKey), got, now)
 			}
 		} else {
@@ -426,6 +458,7 @@ func c19ThrottleBody(r *Run) {
 	r.Describe("Throttle(%d per %v => interval %v), %d concurrent callers x %d messages", count, dur, interval, nG, per)
 	th := middleware.NewThrottle(count, dur)
 	var starts []time.Duration
+	gaveUp := 0
 	h := th.Middleware(func(m *message.Message) ([]*message.Message, error) {
 		starts = append(starts, r.Sim.Now())
 		return []*message.Message{m}, nil
@@ -460,7 +493,15 @@ func c19ThrottleBody(r *Run) {
 						ccancel()
 					}()
 				}
+				before := len(starts)
 				outs, err := h(m)
+				if ctxMode != 0 && err != nil && len(starts) == before && (stderrors.Is(err, context.Canceled) || stderrors.Is(err, context.DeadlineExceeded)) {
+					// the message context ended while (or before) Throttle waited: giving up without starting the
+					// handler keeps the rate
+					gaveUp++
+					r.Probe("throttle-gave-up-on-ended-context")
+					continue
+				}
 				if err != nil || len(outs) != 1 || outs[0] != m {
 					r.Fail("C19.R2", "Throttle changed the handler's result", "%v", err)
 				}
@@ -478,8 +519,8 @@ func c19ThrottleBody(r *Run) {
 			}
 		}
 	}
-	if len(starts) != nG*per {
-		r.Fail("C19.R7", "Throttle lost a call", "%d starts, expected %d", len(starts), nG*per)
+	if len(starts) != nG*per-gaveUp {
+		r.Fail("C19.R7", "Throttle lost a call", "%d starts, expected %d", len(starts), nG*per-gaveUp)
 	}
 }
 
